@@ -65,7 +65,8 @@ class Pool:
             self.servers = list(ex.map(lambda _: Server("asan", preludes=[pre], heap=heap, env=ENV), range(n)))
         self.file = os.path.join(WL_DIR, wl + ".scm")
 
-    def map(self, schedules):
+    def map(self, schedules, deadline=None):
+        """runs the schedules on the servers; schedules not started before `deadline` are left out of the result"""
         q = queue.Queue()
         for s in schedules:
             q.put(s)
@@ -77,6 +78,8 @@ class Pool:
                 try:
                     s = q.get_nowait()
                 except queue.Empty:
+                    return
+                if deadline is not None and time.time() > deadline:
                     return
                 r = srv.run(self.file, gc=s)
                 with lock:
@@ -119,7 +122,10 @@ def run_workload(chk, wl, heap, nserv, sweep_stride, stats):
             w = (n_alloc + nserv - 1) // nserv
             scheds += ["win:%d:%d" % (a, min(a + w, n_alloc + 1)) for a in range(1, n_alloc + 1, w)]
         scheds += ["at:%d" % k for k in range(1, n_alloc + 1, stride)]
-        res = pool.map(scheds)
+        res = pool.map(scheds, chk.deadline)
+        if len(res) < len(scheds):
+            chk.exhaustive = False
+            log("C02 %s heap=%s: %d of %d schedules not run before the tier's deadline (undecided)" % (wl, heap, len(scheds) - len(res), len(scheds)))
         nbad = 0
         for s, r in res.items():
             out, st = strip(clean(r.out))
@@ -184,7 +190,7 @@ def main(tier):
         # two workloads at a time, half of the servers each: the longest single schedule of a workload (nth:7 over tens of
         # thousands of allocations) no longer leaves the other cores idle
         todo = [(wl, None) for wl in micro + WORKLOADS] + [("micro1", "300k")]
-        todo.sort(key=lambda a: 0 if a[0] in ("errors", "cast", "hash", "clibs") else 1)
+        todo.sort(key=lambda a: 0 if a[0] in ("errors", "cast", "hash", "clibs", "growstack") else 1)
 
         def one(a):
             if chk.out_of_time():
